@@ -278,6 +278,7 @@ def evalMml (I : Interp) : Mml → Option Val
 def evalItems (I : Interp) : Mml → Option (List (Role × Val))
   | .nil => some []
   | .cons k rest =>
+    let pv : Option (Role × Val) := (evalMml I k).map fun v => (Role.plain, v)
     let item : Option (Role × Val) :=
       match k with
       | .el tag dk =>
@@ -289,8 +290,8 @@ def evalItems (I : Interp) : Mml → Option (List (Role × Val))
           (match dk with
            | .cons d .nil => (evalMml I d).map fun v => (Role.logbase, v)
            | _ => none)
-        else (evalMml I k).map fun v => (Role.plain, v)
-      | _ => (evalMml I k).map fun v => (Role.plain, v)
+        else pv
+      | _ => pv
     match item, evalItems I rest with
     | some it, some its => some (it :: its)
     | _, _ => none
